@@ -4,7 +4,10 @@ import (
 	vrt "github.com/cocosip/go-dicom-codecs/internal/zzvrt"
 )
 
-func init() { vrt.Register("VerifC20MQ", VerifC20MQ) }
+func init() {
+	vrt.Register("VerifC20MQ", VerifC20MQ)
+	vrt.Register("VerifC20MQDecVsRef", VerifC20MQDecVsRef)
+}
 
 // VerifC20MQ: the MQ decoder returns the (bit, context) sequence given to the
 // encoder.  Bits and context selectors are symbolic; with symstates=1 the
@@ -49,4 +52,118 @@ func VerifC20MQ() {
 		vrt.Out("bit", got)
 	}
 	vrt.Assert(d == 0, "C20 MQ decoder returns the encoded bit sequence")
+}
+
+// refMQ is a transcription of the MQ decoding procedures of ISO/IEC 15444-1
+// Annex C (INITDEC, DECODE, MPS/LPS exchange, RENORMD, BYTEIN) for one context.
+type refMQ struct {
+	data    []byte
+	bp      int
+	a, c    uint32
+	ct      int
+	idx, mp int
+}
+
+func (r *refMQ) byteAt(i int) uint32 {
+	if i < len(r.data) {
+		return uint32(r.data[i])
+	}
+	return 0xFF // past the end: marker
+}
+
+func (r *refMQ) bytein() {
+	if r.byteAt(r.bp) == 0xFF {
+		if r.byteAt(r.bp+1) > 0x8F {
+			r.c += 0xFF00
+			r.ct = 8
+		} else {
+			r.bp++
+			r.c += r.byteAt(r.bp) << 9
+			r.ct = 7
+		}
+	} else {
+		r.bp++
+		r.c += r.byteAt(r.bp) << 8
+		r.ct = 8
+	}
+}
+
+func (r *refMQ) init() {
+	r.bp = 0
+	r.c = r.byteAt(0) << 16
+	r.bytein()
+	r.c <<= 7
+	r.ct -= 7
+	r.a = 0x8000
+}
+
+func (r *refMQ) renormd() {
+	for {
+		if r.ct == 0 {
+			r.bytein()
+		}
+		r.a <<= 1
+		r.c <<= 1
+		r.ct--
+		if r.a&0x8000 != 0 {
+			return
+		}
+	}
+}
+
+func (r *refMQ) decode() int {
+	qe := qeTable[r.idx]
+	r.a -= qe
+	var d int
+	if (r.c >> 16) < qe {
+		if r.a < qe {
+			d = r.mp
+			r.idx = int(nmpsTable[r.idx])
+		} else {
+			d = 1 - r.mp
+			if switchTable[r.idx] == 1 {
+				r.mp = 1 - r.mp
+			}
+			r.idx = int(nlpsTable[r.idx])
+		}
+		r.a = qe
+		r.renormd()
+		return d
+	}
+	r.c -= qe << 16
+	if r.a&0x8000 != 0 {
+		return r.mp
+	}
+	if r.a < qe {
+		d = 1 - r.mp
+		if switchTable[r.idx] == 1 {
+			r.mp = 1 - r.mp
+		}
+		r.idx = int(nlpsTable[r.idx])
+	} else {
+		d = r.mp
+		r.idx = int(nmpsTable[r.idx])
+	}
+	r.renormd()
+	return d
+}
+
+// VerifC20MQDecVsRef: the library's MQ decoder and the Annex C transcription
+// produce the same decisions on ARBITRARY codeword bytes (incl. every FF xx
+// pair: data for xx <= 8F, marker above).
+func VerifC20MQDecVsRef() {
+	n := vrt.Param("bytes", 3)
+	k := vrt.Param("k", 8)
+	data := vrt.Bytes("cw", n)
+	dec := NewMQDecoder(data, 1)
+	ref := &refMQ{data: data}
+	ref.init()
+	d := 0
+	for i := 0; i < k; i++ {
+		got := dec.Decode(0)
+		want := ref.decode()
+		d |= got ^ want
+		vrt.Out("bit", got)
+	}
+	vrt.Assert(d == 0, "C20 MQ decoder follows the Annex C decoding procedure on arbitrary codeword bytes")
 }
